@@ -17,10 +17,11 @@ PROP_LANE = {"C01": "array", "C02": "tree", "C03": "names", "C04": "delete", "C0
 
 # runs per tier (fixed counts make a check a pure function of VERIF_SEED); wall caps are safety nets
 BUDGET = {
-    "quick":    {"runs": 2400, "cap_s": 150, "workers": min(14, NCPU)},
-    "thorough": {"runs": 60000, "cap_s": 1500, "workers": min(15, NCPU)},
+    "quick":    {"runs": 2400, "cap_s": 240, "workers": min(14, NCPU)},
+    "thorough": {"runs": 60000, "cap_s": 3000, "workers": min(15, NCPU)},
 }
-LANE_SCALE = {"modes": 0.3, "version": 0.03, "ids": 0.4, "xkill": 0.15}
+# heavier lanes (every observation walks a linked structure) get fewer, richer runs
+LANE_SCALE = {"modes": 0.3, "version": 0.03, "ids": 0.4, "xkill": 0.15, "reject": 0.4, "names": 0.4, "delete": 0.5, "tree": 0.8, "durable": 0.8}
 EXTRA_LANES = {"C11": ["xkill"]}
 
 LEVELS = {"C10": "fault_enumeration"}
